@@ -263,6 +263,8 @@ func genC02Node(r *prng, tier string) *Plan {
 			add("node-pub-same", int64(r.intn(5)), 1) // ... as a local-only publication
 		case x < 56:
 			add("batch-reuse", int64(r.rng(1, 3)), int64(r.intn(2))) // one MessageBatch published twice
+		case x < 57:
+			add("node-tclose-try", 0) // Topic.Close while the topic is in use (refused) or not (the handle is joined again on next use)
 		case x < 60:
 			add("node-pub", 0, int64(r.rng(8, 60)))
 		case x < 78:
@@ -352,6 +354,29 @@ func runC02Node(s *sim) {
 			}
 			return t.Publish(s.bgctx(), data)
 		})
+	}
+	w.extraOps["node-tclose-try"] = func(it Item) {
+		topic := w.topicName(it.a(0))
+		w.n.mu.Lock()
+		tp := w.n.topics[topic]
+		w.n.mu.Unlock()
+		if tp == nil || len(s.parkedGates()) > 0 {
+			// (a Publish parked in a validator holds the handle's read lock: Close would wait on the
+			// mutex, which is not a durable block)
+			return
+		}
+		c := s.do("Topic.Close "+topic, func() any { return tp.Close() })
+		if !c.isDone(s) {
+			return
+		}
+		if c.res == nil {
+			w.n.mu.Lock()
+			delete(w.n.topics, topic)
+			w.n.mu.Unlock()
+			s.probe("topic_closed_and_joined_again_later")
+		} else {
+			s.probe("topic_close_refused")
+		}
 	}
 	w.extraOps["batch-reuse"] = func(it Item) {
 		var batch MessageBatch
